@@ -32,7 +32,7 @@ def _replay(op):
     from .c02 import _mints
 
     def build(m):
-        fees = (10 ** 15, 2 * 10 ** 15, 0, [])
+        fees = fees_of_model(m)
         steps = [{'op': 'set_pool', 'pool': pool_json('p1', ['uA', 'uB'], [6, 6], [m['x1'], m['y1']], 'constant_product', fees)},
                  {'op': 'set_pool', 'pool': pool_json('p2', ['uB', 'uC'], [6, 6], [m['x2'], m['y2']], 'constant_product', fees)}]
         tot = m['amount'] + m['amount_b']
